@@ -3,6 +3,7 @@ classification: threshold-equal values, runs touching the ends of a stretch,
 rises spanning several bursts, bursts spanning several rises, chains that force
 displacement in the matching, gaps (including one-sample stretches)."""
 import math
+import random
 
 from harness.dataset import Dataset
 
@@ -418,7 +419,9 @@ def fine_share(recs, rng, every=4, phase=2, run_in_rng=None):
 def to_dataset(rec, shift=0, tz='UTC', fmt_time=None):
     """Rainfall covers `lead` steps before and `trail` after the water-level span.
     With rec['fine'] = f > 1 the water level is written every step/f seconds (see `refine`), without the fine
-    samples listed in rec['fine_missing']; rec['missing'] is then only informative."""
+    samples listed in rec['fine_missing']; rec['missing'] is then only informative.
+    A compact large record (rec['big'], see `expand`) is materialised first."""
+    rec = expand(rec)
     step, t0, n = rec['step'], rec['t0'] + shift, len(rec['rain'])
     lead, trail = rec['lead'], rec['trail']
     rain = [(t0 + (i - lead) * step, 0.0) for i in range(lead)]
@@ -442,3 +445,303 @@ def to_dataset(rec, shift=0, tz='UTC', fmt_time=None):
     if fmt_time is not None:
         kw['fmt_time'] = fmt_time
     return Dataset(rain, et, wl, tz=tz, **kw)
+
+
+# ------------------------------------------------------------------ far time origins (epochs beyond 32 bits)
+#
+# Epochs are whole seconds since 1970 held in 64-bit integers all the way (SQLite integers, Python ints, numpy int64):
+# a record dated after 2038-01-19 03:14:08 UTC (2**31 s) or before 1901-12-13 20:45:52 (-2**31 s), or after 2106
+# (2**32 s), must classify like the same record dated 2013.  Origins of the lattice below put the record a few steps
+# before 2**31 (the record straddles it), exactly on it, days / decades after it, around 2**32, a few steps before
+# -2**31, and centuries away on either side (within the years 1..9999 that a time stamp can spell).
+
+FAR_ANCHORS = [2**31, 2**31, 2**31, 2**32, -2**31, -2**31]
+
+
+def far_t0(rng, step, n):
+    """An origin (a multiple of the step) from the far lattice for a record of n samples."""
+    kind = rng.randrange(8)
+    if kind < 4:
+        a = rng.choice(FAR_ANCHORS)
+        k = rng.choice([0, 1, 2, 3, max(1, n // 2), n, n + 2, -1, -5])       # steps of the record before the anchor
+        t0 = a - k * step
+    elif kind == 4:
+        t0 = 2**31 + 86400 * rng.choice([1, 30, 365, 3650])
+    elif kind == 5:
+        t0 = rng.choice([4000000000, 2**32 + 86400, 10**10, 32503680000, 10**11])    # 2096, 2106, 2286, 3000, 5138
+    elif kind == 6:
+        t0 = rng.choice([-2**31 - 86400 * 400, -3000000000, -2**32 - 3600, -10**10, -30610224000])   # 1900 .. 1000
+    else:
+        t0 = rng.choice([2**31 - 86400, 2**31 + 3600, -2**31 + 7200])
+    return t0 // step * step
+
+
+def far_origin(rec, rng):
+    """The same record dated at a far origin (rec['far'] = True); nothing else changes."""
+    n = len(rec['zeta']) if 'zeta' in rec else rec.get('n', 100)
+    return dict(rec, t0=far_t0(rng, rec['step'], n), far=True)
+
+
+def far_share(recs, rng, every=5, phase=3):
+    """Every `every`-th record (from index `phase`) moved to an origin of the far lattice; `rng` is a stream of its
+    own, the records are otherwise unchanged."""
+    return [far_origin(rec, rng) if k % every == phase else rec for k, rec in enumerate(recs)]
+
+
+def far_kind(rec):
+    """Which side of which 32-bit bound the record's epochs lie on (for the input histogram)."""
+    n = len(rec['zeta']) if 'zeta' in rec else rec.get('n', 0)
+    lo, hi = rec['t0'] - rec.get('lead', 0) * rec['step'], rec['t0'] + (n + rec.get('trail', 0)) * rec['step']
+    for name, b in (('2^31', 2**31), ('2^32', 2**32), ('-2^31', -2**31), ('-2^32', -2**32)):
+        if lo < b <= hi:
+            return 'straddles ' + name
+    if lo >= 2**32:
+        return 'after 2^32 (2106)'
+    if lo >= 2**31:
+        return 'after 2^31 (2038)'
+    if hi < -2**32:
+        return 'before -2^32 (1833)'
+    if hi < -2**31:
+        return 'before -2^31 (1901)'
+    return 'inside 32 bits'
+
+
+# ------------------------------------------------------------------ large records (compact: materialised on use)
+#
+# Records sized past the round numbers software chunks at.  A large record is carried as a SPEC: the usual keys
+# (cls, step, thr_s, thr_j, t0, lead, trail, missing) plus rec['big'] = parameters and the seed of a private
+# random stream; `expand` materialises rain and zeta deterministically from it, so that a replay file stays small.
+
+BLOCKS = [1000, 1024, 4096, 8192, 10000, 16384, 32768, 65536]
+
+
+def block_edges(n, margin=8):
+    """Sample indices inside (margin, n - margin) at which a program working in blocks of a round size would cut:
+    multiples of each block size B, and of B - 1 (blocks that share one sample)."""
+    out = set()
+    for b in BLOCKS:
+        for size in (b, b - 1):
+            k = size
+            while k < n - margin:
+                if k > margin:
+                    out.add(k)
+                k += size
+    return sorted(out)
+
+
+def odd_size(rng, lo, hi):
+    """A size in [lo, hi) that is not a multiple of, nor one beside a multiple of, any block size."""
+    while True:
+        n = rng.randrange(lo, hi)
+        if all(n % b > 1 and n % b < b - 1 for b in BLOCKS):
+            return n
+
+
+def expand(rec):
+    """A record with rain / zeta lists: `rec` itself unless it is a compact spec (rec['big'] without 'rain')."""
+    if 'rain' in rec or 'big' not in rec:
+        return rec
+    big = rec['big']
+    rng = random.Random(big['rseed'])
+    delta = rec['thr_j'] * (rec['step'] / 3600.0)
+    if big['kind'] == 'chain':
+        heavy, light, fast = chain_flags(rng, big['links'], big['cut'], big['lead_dry'])
+    elif big['kind'] == 'edges':
+        heavy, light, fast = edge_flags(rng, big['n'], big['density'])
+    elif big['kind'] == 'span':
+        heavy, light, fast = span_flags(rng, big['n'], big['which'], big['width'])
+    elif big['kind'] == 'spells':
+        heavy, light, fast = spell_flags(rng, big['n'], big['period'], big['jumps'])
+    else:
+        raise ValueError(big['kind'])
+    rain, zeta = flag_values(rng, heavy, light, fast, rec['thr_s'], delta, big.get('boundary', 0.0))
+    return dict(rec, rain=rain, zeta=zeta, n=len(rain))
+
+
+def flag_values(rng, heavy, light, fast, thr_s, delta, boundary=0.0):
+    """Values realising the plans: intensities above the storm threshold where heavy, positive but not above it where
+    light, zero elsewhere; increments above threshold x step where fast, falls / slow rises elsewhere (a share
+    `boundary` of the values sits exactly on the threshold or one ulp beside it).  The level stays within a few
+    metres of zero: long records must not drift to levels where an increment of a few millimetres is lost."""
+    n = len(heavy)
+    rain = []
+    for i in range(n):
+        if heavy[i]:
+            rain.append(nextafter(thr_s) if (thr_s > 0 and rng.random() < boundary) else rng.choice([thr_s * 2, thr_s + 1.5, 3 * thr_s + 0.25]))
+        elif light[i]:
+            rain.append(thr_s if (thr_s > 0 and rng.random() < boundary) else rng.choice([thr_s / 2, 0.1, 0.25]) if thr_s > 0.1 else 0.0)
+        else:
+            rain.append(0.0)
+        if light[i] and not rain[-1] > 0:
+            rain[-1] = thr_s if thr_s > 0 else 0.0
+    z = rng.choice([-300.0, -50.25, 0.0, 12.5])
+    zeta = [z]
+    for i in range(n - 1):
+        if fast[i]:
+            d = nextafter(delta) if rng.random() < boundary else rng.choice([2 * delta, delta + 1.0, 3 * delta + 0.5, delta * 1.5]) \
+                if delta > 0 else 0.5
+        else:
+            if rng.random() < boundary:
+                d = rng.choice([delta, nextafter(delta, False)])
+            else:
+                d = -rng.choice([0.0, 0.125, 0.25, 0.5, delta / 4])
+            if z > 500.0:
+                d = -min(z + 500.0, rng.choice([2.0, 4.0, 6.0, 2.0 + 4 * delta]))      # a recession brings the level back
+            elif z < -800.0 and d < 0:
+                d = rng.choice([0.0, delta / 2, delta / 4])                            # ... and a slow rise, from below
+        z = z + d
+        zeta.append(z)
+    return rain, zeta
+
+
+def chain_flags(rng, links, cut, lead_dry):
+    """links+1 storms and `links` rises in one gap-free stretch: rise i begins in the last step of storm i, runs through
+    the dry spell after it and ends in the first step of storm i+1; storm i lasts exactly as long as rise i (so it
+    prefers rise i to rise i-1, whose length differs), and is long enough for rise i to begin nearer to the start of
+    storm i+1 than to that of storm i (so rise i prefers storm i+1); the last storm overlaps only the last rise.
+    Deferred acceptance then displaces the storms one after another along the chain.  With probability `cut` per link
+    the rise stops short of the next storm (the chain is cut there into independent chains of random lengths)."""
+    heavy, fast = [False] * lead_dry, [False] * lead_dry
+    prev_gap = 0
+    for i in range(links + 1):
+        gap = rng.choice([g for g in (1, 2, 3) if g != prev_gap])
+        prev_gap = gap
+        length = gap + 3
+        a = len(heavy)
+        heavy += [True] * length + [False] * gap
+        fast += [False] * (length + gap)
+        if i < links:
+            last = a + length + gap                      # first step of storm i+1
+            if rng.random() < cut:
+                last = a + length + gap - 2
+                prev_gap = 0                             # the next storm has one candidate only
+            for k in range(a + length - 1, last + 1):
+                while len(fast) <= k:
+                    fast.append(False)
+                fast[k] = True
+    n = len(heavy) + rng.randrange(2, 7)
+    heavy += [False] * (n - len(heavy))
+    fast += [False] * (n - len(fast))
+    return heavy, [False] * n, fast[:n]
+
+
+def plant_event(heavy, light, fast, p, ls, lr, off):
+    """A burst of `ls` steps whose middle straddles sample p, a rise of `lr` increments offset by `off`, clean margins."""
+    n = len(heavy)
+    a = max(1, p - ls // 2)
+    for k in range(max(0, a - 3), min(n, a + ls + 4)):
+        heavy[k] = light[k] = fast[k] = False
+    for k in range(a, min(n - 2, a + ls)):
+        heavy[k] = True
+    ra = max(1, p - lr // 2 + off)
+    for k in range(ra, min(n - 2, ra + lr)):
+        fast[k] = True
+    if a + ls < n:
+        light[a + ls] = not heavy[a + ls]
+
+
+def edge_flags(rng, n, density):
+    """Storms followed by recessions over n samples (about one event per 1/density samples), and on top a storm and
+    a rise laid ACROSS every block edge (`block_edges`): the burst / the run of increments has samples on both sides
+    of the cut, of lengths 2..9 so that cuts at B-1, B and B+1 all fall inside."""
+    heavy, light, fast = [False] * n, [False] * n, [False] * n
+    i = rng.randrange(2, 6)
+    while i < n - 12:
+        ls = rng.randrange(1, 5)
+        off = rng.randrange(-1, 2)
+        lr = max(1, ls + rng.randrange(-1, 2))
+        for k in range(i, i + ls):
+            heavy[k] = True
+        for k in range(max(0, i + off), i + off + lr):
+            fast[k] = True
+        light[i + ls] = rng.random() < 0.7
+        i += ls + 2 + int(rng.expovariate(density))
+        if rng.random() < 0.15 and i < n:
+            fast[i - 1] = True                            # a dry unexplained rise
+    for p in block_edges(n):
+        if any(heavy[max(0, p - 12):p + 12]) and rng.random() < 0.25:
+            continue                                      # now and then keep what the base plan has there
+        plant_event(heavy, light, fast, p, rng.randrange(4, 10), rng.randrange(3, 10), rng.randrange(-1, 2))
+    return heavy, light, fast
+
+
+def spell_flags(rng, n, period, jumps):
+    """Rain-free spells separated by single steps of light rain every 2..period steps (one separate dry spell per
+    shower: tens of thousands of them in a long record), a share `jumps` of the spells holding an unexplained rise,
+    now and then a burst of heavy rain with a rise; spells of 2+ samples are laid across every block edge."""
+    heavy, light, fast = [False] * n, [False] * n, [False] * n
+    i = 0
+    while i < n:
+        light[i] = True
+        ln = rng.randrange(2, period + 1)
+        if rng.random() < jumps and ln >= 3 and i + 2 < n:
+            fast[i + rng.randrange(1, ln - 1)] = True
+        if rng.random() < 0.01 and i + 3 < n:
+            heavy[i], light[i], fast[i] = True, False, True
+        i += ln
+    for p in block_edges(n):
+        for k in range(p - 3, min(n, p + 3)):
+            light[k] = heavy[k] = False
+            fast[k] = False
+        light[p - 4] = True
+        if p + 3 < n:
+            light[p + 3] = True
+    return heavy, light, fast
+
+
+def span_flags(rng, n, which, width):
+    """ONE burst of heavy rain (which='storm') / one rise (which='rise') lasting more than 1000 steps - longer than any
+    weight a program may give a secondary criterion - with many short rises / bursts of nearly equal lengths
+    (base .. base+width steps, plus one step per `period` steps of offset) scattered inside it and around it: the long
+    interval has dozens of candidates whose durations differ by one step while their start offsets differ by hundreds
+    to thousands of steps."""
+    long_, short, light = [False] * n, [False] * n, [False] * n
+    a = rng.randrange(3, max(4, n // 10))
+    b = rng.randrange(min(n - 10, a + 1100), n - 5)
+    for k in range(a, b):
+        long_[k] = True
+    base = rng.randrange(2, 30)
+    # the longest length on offer grows by one step every `period` steps along the long interval: the candidate with
+    # the closest duration lies hundreds to thousands of steps beyond the runner-up
+    period = rng.choice([150, 400, 700, 1100, 1600, 2500, (b - a) // 2 + 1, (b - a) // 2 + 1, (b - a) // 3 + 1])
+    if rng.random() < 0.3:
+        period = -period                                  # ... or before it (lengths shrink along the interval)
+    i = rng.randrange(0, 20)
+    while i < n - base - width - n // abs(period) - 3:
+        cap = base + width + (max(0, i - a) // period if period > 0 else max(0, b - i) // -period)
+        ln = max(1, cap - rng.choice([0, 0, 1, 1, 2, width]))
+        for k in range(i, i + ln):
+            short[k] = True
+        i += ln + 1 + rng.randrange(1, 120)
+    if which == 'storm':
+        return long_, light, short
+    return short, light, long_
+
+
+def gen_span_spec(rng, n, which, width=4):
+    """Class 'long-storm' / 'long-rise' (see `span_flags`)."""
+    return big_spec(rng, 'long-' + which, dict(kind='span', n=n, which=which, width=width))
+
+
+def big_spec(rng, cls, big, step=None, thr_s=None, thr_j=None):
+    step = step or rng.choice([600, 900, 1800, 3600, 1200])
+    thr_s = thr_s if thr_s is not None else rng.choice([1.0, 2.0, 4.0, 5.0, 8.0, 2.5])
+    thr_j = thr_j if thr_j is not None else rng.choice([1.0, 2.0, 4.0, 5.0, 8.0, 0.5])
+    t0 = rng.choice([1361318400, 1356998400, 946684800]) // step * step
+    return dict(cls=cls, step=step, thr_s=thr_s, thr_j=thr_j, t0=t0, missing=[], lead=rng.randrange(0, 3),
+                trail=rng.randrange(0, 3), big=dict(big, rseed=rng.getrandbits(48)))
+
+
+def gen_chain_spec(rng, links, cut=0.0):
+    """Class 'long-chain' (see `chain_flags`): about 7 samples per link."""
+    return big_spec(rng, 'long-chain', dict(kind='chain', links=links, cut=cut, lead_dry=rng.randrange(2, 8)))
+
+
+def gen_edges_spec(rng, n, density=0.04, boundary=0.02):
+    """Class 'long-edges' (see `edge_flags`)."""
+    return big_spec(rng, 'long-edges', dict(kind='edges', n=n, density=density, boundary=boundary))
+
+
+def gen_spells_spec(rng, n, period=4, jumps=0.05):
+    """Class 'long-spells' (see `spell_flags`): about n / (1 + period / 2) separate dry spells."""
+    return big_spec(rng, 'long-spells', dict(kind='spells', n=n, period=period, jumps=jumps))
